@@ -489,8 +489,7 @@ class SqlImpl(TableImpl):
                 query.partition_by = nd.group_by
 
         elif isinstance(nd, verbs.Ungroup):
-            assert not (query.partition_by and query.group_by)
-            query.partition_by.clear()
+            query.partition_by = []
 
         elif isinstance(nd, verbs.Join):
             right_table, right_query, right_sqa_expr = cls.compile_ast(nd.right, needed_cols)
